@@ -158,7 +158,8 @@ struct NinjaMain : public BuildLogUser {
   /// Rebuild the manifest, if necessary.
   /// Fills in \a err on error.
   /// @return true if the manifest was rebuilt.
-  bool RebuildManifest(const char* input_file, string* err, Status* status);
+  bool RebuildManifest(const char* input_file, string* err, Status* status,
+                       ExitStatus* failure);
 
   /// For each edge, lookup in build log how long it took last time,
   /// and record that in the edge itself. It will be used for ETA prediction.
@@ -268,7 +269,7 @@ int GuessParallelism() {
 /// Rebuild the build manifest, if necessary.
 /// Returns true if the manifest was rebuilt.
 bool NinjaMain::RebuildManifest(const char* input_file, string* err,
-                                Status* status) {
+                                Status* status, ExitStatus* failure) {
   string path = input_file;
   if (path.empty()) {
     *err = "empty path";
@@ -288,8 +289,11 @@ bool NinjaMain::RebuildManifest(const char* input_file, string* err,
   if (builder.AlreadyUpToDate())
     return false;  // Not an error, but we didn't rebuild.
 
-  if (builder.Build(err) != ExitSuccess)
+  ExitStatus result = builder.Build(err);
+  if (result != ExitSuccess) {
+    *failure = result;
     return false;
+  }
 
   // The manifest was only rebuilt if it is now dirty (it may have been cleaned
   // by a restat).  The command that generates it may have other outputs, such
@@ -1898,7 +1902,9 @@ NORETURN void real_main(int argc, char** argv) {
       exit((ninja.*options.tool->func)(&options, argc, argv));
 
     // Attempt to rebuild the manifest before building anything else
-    if (ninja.RebuildManifest(options.input_file, &err, status)) {
+    ExitStatus rebuild_failure = ExitFailure;
+    if (ninja.RebuildManifest(options.input_file, &err, status,
+                              &rebuild_failure)) {
       // In dry_run mode the regeneration will succeed without changing the
       // manifest forever. Better to return immediately.
       if (config.dry_run)
@@ -1907,7 +1913,7 @@ NORETURN void real_main(int argc, char** argv) {
       continue;
     } else if (!err.empty()) {
       status->Error("rebuilding '%s': %s", options.input_file, err.c_str());
-      exit(1);
+      exit(rebuild_failure);
     }
 
     ninja.ParsePreviousElapsedTimes();
